@@ -256,6 +256,21 @@ func (env *c05Env) register(r rRoute) {
 					st.obs.store = append(st.obs.store, "nested-request-clobbered-the-outer-context", before, after)
 				}
 				st.inner = append(st.inner, c05Inner{rReq{Method: "GET", Path: op.S}, 1000 + st.id, inner})
+			case "setRequest":
+				// the handler replaces the request (as a rewriting middleware would): same identity for the
+				// observer, another query string, and the query cache is filled from it
+				r2 := c.Request().Clone(c.Request().Context())
+				r2.URL.RawQuery = "q=9999&leak=1"
+				c.SetRequest(r2)
+				c.QueryParam("q")
+			case "setResponse":
+				// the handler swaps the response object for one of its own and dirties it
+				c.SetResponse(echo.NewResponse(httptest.NewRecorder(), env.e))
+				if op.A > 0 {
+					c.Response().WriteHeader(op.A)
+				}
+			case "setHandler":
+				c.SetHandler(func(echo.Context) error { return echo.NewHTTPError(http.StatusTeapot, "left-over handler") })
 			case "panic":
 				panic("handler panics midway")
 			case "fail":
@@ -274,6 +289,24 @@ func (env *c05Env) register(r rRoute) {
 		_, err := c.Response().Write([]byte("x")) // make after-hooks of the response fire
 		return err
 	})
+}
+
+// borrowContext: AcquireContext / use / ReleaseContext, as an application does for work outside a request.
+func (env *c05Env) borrowContext(id int) {
+	defer func() { recover() }()
+	c := env.e.AcquireContext()
+	req := httptest.NewRequest("GET", "/borrowed?q=borrowed", nil)
+	c.Reset(req, httptest.NewRecorder())
+	c.SetPath("/borrowed/:b1/:b2")
+	c.SetParamNames("b1", "b2", "b3", "b4", "b5", "b6")
+	c.SetParamValues("bv1", "bv2", "bv3", "bv4", "bv5", "bv6")
+	c.Set("k"+strconv.Itoa(id%4), "borrowed")
+	c.QueryParam("q")
+	c.SetLogger(&c05Logger{Logger: log.New("x"), id: 77, owner: -1, env: env})
+	c.Response().Before(func() {})
+	c.Response().WriteHeader(http.StatusTeapot)
+	c.Response().Write([]byte("borrowed"))
+	env.e.ReleaseContext(c)
 }
 
 func (env *c05Env) serve(id int, q rReq, prog []c05HOp) c05Obs {
@@ -345,8 +378,8 @@ func c05HOpWire(op c05HOp) string {
 		return "10"
 	case "setSharedValues":
 		return wJoin("2", wStrs(c05SharedPristine[:op.A]))
-	case "nested":
-		return "5" // nothing happens to the outer context
+	case "nested", "setRequest", "setResponse", "setHandler":
+		return "5" // nothing that a later request may see happens to the context
 	case "silent":
 		return "11" // like fail for the context: nothing more happens to it
 	}
@@ -392,6 +425,12 @@ func c05Run(ci any) Result {
 		var o c05Obs
 		var inner []c05Inner
 		if c.Concurrent == 0 {
+			if (reqID*7+len(s.Req.Path))%4 == 0 {
+				// the application borrows a context from the pool (Echo.AcquireContext), uses it for work of its
+				// own and gives it back (Echo.ReleaseContext): whatever it left in it must not reach a request
+				env.borrowContext(reqID)
+				tags = append(tags, "app-borrowed-pooled-context")
+			}
 			o, inner = env.serve3(reqID, *s.Req, s.Prog, s.Probe)
 		}
 		{
@@ -520,6 +559,8 @@ func c05GenProg(r *rand.Rand) []c05HOp {
 				p = append(p, c05HOp{Kind: "nested", S: []string{"/", "/a/n1", "/b/n1/n2", "/c/n1/n2/n3", "/files/n", "/nowhere"}[r.Intn(6)]})
 			} else if r.Intn(2) == 0 {
 				p = append(p, c05HOp{Kind: "setSharedValues", A: 1 + r.Intn(6)})
+			} else if r.Intn(2) == 0 {
+				p = append(p, c05HOp{Kind: []string{"setRequest", "setResponse", "setHandler"}[r.Intn(3)], A: []int{0, 201, 500}[r.Intn(3)]})
 			} else {
 				p = append(p, c05HOp{Kind: "silent"})
 			}
